@@ -23,7 +23,7 @@ fn strata(t: Tier) -> Vec<Stratum> {
     vec![
         ex("u8-u16-exhaustive", scale(t, sweep_cases(), sweep_cases(), 4)),
         ex("wide-boundary", scale(t, 25, 25, 3)),
-        st("wide-random", scale(t, 20_000, 2_000_000, 30)),
+        st("wide-random", scale(t, 600_000, 6_000_000, 30)),
     ]
 }
 
